@@ -26,7 +26,22 @@ structure St where
 def dropAbout (c : List (String × Name × Nat)) (x : Name) (except : Option String) : List (String × Name × Nat) :=
   c.filter fun e => !(e.2.1 == x) || some e.1 == except
 
+/-- `uevdup` / `qrydup`: the same user event / query delivered several times.  Expected: re-queued on the first
+delivery only (never when the query disables re-broadcast), whatever its filters say. -/
+def dupStep (s : St) (f : List String) (impl : String) : LineOut St :=
+  let times := (f.getLast?.bind (·.toNat?)).getD 0
+  let first := if f.head? == some "qrydup" && f[3]? == some "1" then 0 else 1
+  let expect := "growth " ++ ",".intercalate ((List.range times).map fun i => if i == 0 then toString first else "0")
+  let got : List Nat := ((String.ofList (impl.toList.drop 7)).splitOn ",").filterMap (·.toNat?)
+  let total : Nat := got.foldl (· + ·) 0
+  let m : Option (String × String) :=
+    if !impl.startsWith "growth " then some ("malformed", impl)
+    else if total > 1 then some ("requeued-again", s!"the same message was re-queued {total} times over {times} deliveries")
+    else none
+  { state := s, model := some expect, monitor := m }
+
 def step (s : St) (f : List String) (impl : String) : LineOut St :=
+  if f.head? == some "uevdup" || f.head? == some "qrydup" then dupStep s f impl else
   let (n', out, h) := modelLine s.base.node f
   match h with
   | .bad => { state := s, model := some out }
